@@ -65,7 +65,7 @@ def random_sequence(rng, cap, pol, length, allow_stop=True, occ=0):
             ops.append(s.sub(rng.choice('eeww'), rng.randrange(3)))
             st.submit()
         elif k < 0.68:
-            ops.append(s.sub('d', rng.randrange(3)))
+            ops.append(s.sub(rng.choice('du'), rng.randrange(3)))     # not enabled: below / at-or-above the logger's range
         else:
             ops.append('T'); st.take()
     if allow_stop and rng.random() < 0.7:
